@@ -151,6 +151,18 @@ class Envelope:
     body: typing.Union[Ping, Stamp]
     sent: typing.Union[Ping, datetime.date]
     trail: list[typing.Union[Ping, Stamp]]
+R = typing.TypeVar("R", bound=typing.Sequence[decimal.Decimal])
+D = typing.TypeVar("D", bound=decimal.Decimal)
+O = typing.TypeVar("O", bound=typing.Optional[datetime.date])
+C = typing.TypeVar("C", decimal.Decimal, datetime.date)
+@dataclasses.dataclass
+class Table(typing.Generic[R, D, O, C]):
+    # a generic class, unsubscripted: every member is marshalled by the bound / the constraints of its variable
+    rows: typing.List[R]
+    cell: D
+    day: O
+    either: C
+    header: typing.Optional[R] = None
 class Key(str, enum.Enum):
     NAME = "name"
     A = "a"
@@ -192,6 +204,8 @@ SUB_CASES = [
     ("Envelope", "Envelope('ping', Ping(), datetime.date(2024, 2, 29), [Ping()])"),
     ("ExtTD", "{'name': 'w', 'level': Level.HIGH, 'amount': decimal.Decimal('12.50'), 'when': datetime.date(2024, 2, 29), 'tags': ['a'], "
               "'counts': collections.OrderedDict(x=1)}"),
+    ("Table", "Table([[decimal.Decimal('1.10')], (MyDec('2'),)], decimal.Decimal('3'), datetime.date(2024, 2, 29), datetime.date(2024, 3, 1), [decimal.Decimal('0')])"),
+    ("list[Table]", "[Table([], MyDec('3'), None, decimal.Decimal('4'))]"),
     # the KEYS of a mapping given for a structured type: spelled with a str subclass or a str enum member, they name the same fields
     ("PlainTD", "{Key.A: 1, Key.NAME: 'n'}"), ("PlainTD", "{S('a'): True, S('name'): S('n')}"), ("list[PlainTD]", "[{Key.A: 1, 'name': 'n'}]"),
     ("dict[str, PlainTD]", "{Key.A: {S('a'): 1, Key.NAME: Color.RED}}"), ("typing.Optional[PlainTD]", "collections.OrderedDict([(Key.A, 1), (Key.NAME, 'n')])"),
